@@ -712,7 +712,7 @@ class SqlalchemyRender:
             *columns
         )
 
-        return CreateTable(table)
+        return CreateTable(table, if_not_exists=bool(ast_query.if_not_exists))
 
     def prepare_drop_table(self, ast_query):
         if len(ast_query.tables) != 1:
